@@ -316,11 +316,13 @@ func (c *codecV2) EncodeRequest(req *tikvrpc.Request) (*tikvrpc.Request, error) 
 	case tikvrpc.CmdCop:
 		r := *req.Cop()
 		r.Ranges = c.encodeCopRanges(r.Ranges)
+		r.VersionedRanges = c.encodeVersionedRanges(r.VersionedRanges)
 		r.Tasks = c.encodeStoreBatchTasks(r.Tasks)
 		req.Req = &r
 	case tikvrpc.CmdCopStream:
 		r := *req.Cop()
 		r.Ranges = c.encodeCopRanges(r.Ranges)
+		r.VersionedRanges = c.encodeVersionedRanges(r.VersionedRanges)
 		r.Tasks = c.encodeStoreBatchTasks(r.Tasks)
 		req.Req = &r
 	case tikvrpc.CmdMvccGetByKey:
@@ -669,6 +671,17 @@ func (c *codecV2) DecodeResponse(req *tikvrpc.Request, resp *tikvrpc.Response) (
 		if err != nil {
 			return nil, err
 		}
+		// the responses of store-batched sub tasks carry their own region error and lock
+		for _, br := range r.BatchResponses {
+			br.RegionError, err = c.decodeRegionError(br.RegionError)
+			if err != nil {
+				return nil, err
+			}
+			br.Locked, err = c.decodeLockInfo(br.Locked)
+			if err != nil {
+				return nil, err
+			}
+		}
 	case tikvrpc.CmdCopStream:
 		return nil, errors.New("streaming coprocessor is not supported yet")
 	case tikvrpc.CmdBatchCop, tikvrpc.CmdMPPTask:
@@ -877,6 +890,21 @@ func (c *codecV2) encodeCopRanges(ranges []*coprocessor.KeyRange) []*coprocessor
 	return newRanges
 }
 
+func (c *codecV2) encodeVersionedRanges(ranges []*coprocessor.VersionedKeyRange) []*coprocessor.VersionedKeyRange {
+	if ranges == nil {
+		return nil
+	}
+	encodedRanges := make([]*coprocessor.VersionedKeyRange, 0, len(ranges))
+	for _, r := range ranges {
+		v := *r
+		if r.Range != nil {
+			v.Range = c.encodeCopRange(r.Range)
+		}
+		encodedRanges = append(encodedRanges, &v)
+	}
+	return encodedRanges
+}
+
 func (c *codecV2) decodeRegions(regions []*metapb.Region) ([]*metapb.Region, error) {
 	var err error
 	for _, region := range regions {
@@ -967,6 +995,7 @@ func (c *codecV2) encodeStoreBatchTasks(tasks []*coprocessor.StoreBatchTask) []*
 	for _, task := range tasks {
 		t := *task
 		t.Ranges = c.encodeCopRanges(t.Ranges)
+		t.VersionedRanges = c.encodeVersionedRanges(t.VersionedRanges)
 		encodedTasks = append(encodedTasks, &t)
 	}
 	return encodedTasks
